@@ -391,13 +391,22 @@ func jwkValue(j *jws.JWK) interface{} {
 }
 
 func longFormCase(c *ev.Ctx, cs *idCase, viol func(string, interface{})) int64 {
+	var n int64
+	// three initial states whose canonical lengths cover every remainder mod 3 (base64 trailing bits exist for two of them)
+	for pad := 0; pad < 3; pad++ {
+		n += longFormVariant(c, cs, viol, strings.Repeat("x", pad))
+	}
+	return n
+}
+
+func longFormVariant(c *ev.Ctx, cs *idCase, viol func(string, interface{}), pad string) int64 {
 	alg := cs.C.Alg
 	keys, err := concr.NewKeys(5, alg, func(int) concr.KeyType { return concr.P256 })
 	if err != nil {
 		ev.Fatal("keys: %v", err)
 	}
 	req, err := client.NewCreateRequest(&client.CreateRequestInfo{Patches: concr.DeltaPatches("ok", 10), RecoveryCommitment: keys.C(1), UpdateCommitment: keys.C(4),
-		AnchorOrigin: "https://origin.example.com", MultihashCode: alg})
+		AnchorOrigin: "https://origin.example.com/" + pad, MultihashCode: alg})
 	if err != nil {
 		ev.Fatal("create: %v", err)
 	}
@@ -457,10 +466,12 @@ func longFormCase(c *ev.Ctx, cs *idCase, viol func(string, interface{})) int64 {
 		segs = []string{b64e(canon(initial)) + "="}
 	case "trailingBits":
 		s := b64e(canon(initial))
-		if len(s)%4 != 0 { // the last character carries unused bits
-			const abc = "ABCDEFGHIJKLMNOPQRSTUVWXYZabcdefghijklmnopqrstuvwxyz0123456789-_"
-			idx := strings.IndexByte(abc, s[len(s)-1])
-			segs = []string{s[:len(s)-1] + string(abc[idx^1])}
+		// every other final character: some differ only in the unused trailing bits and decode to the same bytes
+		const abc = "ABCDEFGHIJKLMNOPQRSTUVWXYZabcdefghijklmnopqrstuvwxyz0123456789-_"
+		for k := 0; k < len(abc); k++ {
+			if abc[k] != s[len(s)-1] {
+				segs = append(segs, s[:len(s)-1]+string(abc[k]))
+			}
 		}
 	case "byteChanged":
 		cb := canon(initial)
